@@ -79,7 +79,8 @@ pub fn random_params(rng: &mut Rng) -> Parameters {
     if kind >= 2 {
         for i in 0..6 {
             if rng.bool() { p.sign_corrections[i] = -1; }
-            if rng.below(3) != 0 { p.offsets[i] = dy(rng.range(-3.2, 3.2), 12); }
+            // arbitrary offsets: mostly within a half turn, some beyond one whole turn
+            if rng.below(3) != 0 { p.offsets[i] = if rng.below(5) == 0 { dy(rng.range(-7.0, 7.0), 12) } else { dy(rng.range(-3.2, 3.2), 12) }; }
         }
     }
     p
